@@ -99,8 +99,9 @@ impl TimeFilter for ts::TimeSpan {
             }
         };
 
-        assert!(start <= end);
-        start..end
+        // A start beyond 24:00 (sun event with a large offset) can still lie after the wrapped
+        // end: such a span is empty.
+        start..end.max(start)
     }
 }
 
